@@ -15,11 +15,16 @@ prop("C11", "Key-to-slot computation agrees with Redis Cluster for every key", "
      "keys are byte strings built from brace-heavy tokens ('{','}','{}','{{','}{', letters, NUL, 0xFF, invalid UTF-8, CRLF) "
      "plus an occasional 0-300 byte random tail; each key is one case; non-trivial = the key contains at least two brace characters; "
      "distinct = distinct key bytes (sha1 of the case JSON). Oracle: ref/hashslot (bitwise CRC16/XMODEM over first-'{'..first-following-'}' tag if non-empty) "
-     "compared with redis.KeyToSlot, cluster.GetSlot (string and []byte) and RangeList.IsSlotInList for singleton ranges [s,s] (must accept) and [s+1,s+1] (must reject).",
+     "compared with redis.KeyToSlot, cluster.GetSlot (string and []byte), RangeList.IsSlotInList for singleton ranges [s,s] (must accept) and [s+1,s+1] (must reject), and the slot of the marker key a bidirectional unit on that key would use (BisyncMarkerKey(BisyncSlotTag(KeyToSlot(key)))). "
+     "Second unit (co-located bookkeeping keys): one case in four = a checkpoint name x unit sequence number for which ALL 16384 slots are enumerated: the marker / index / latest / commit / rdb record keys built from BisyncSlotTag(slot) must have HASH_SLOT == slot; "
+     "otherwise 1-4 slot ranges (single slots, narrow, wide) handed to the checkpoint-key search of transactional cluster replay (choseKeyInSlots through a hook): a key that is returned must lie in the union of the ranges and carry the prefix.",
      [{"pkg": "c11", "test": "TestC11",
        "quick": {"checks": 200000, "shards": 4, "timeout": 300},
        "thorough": {"checks": 20000000, "shards": 16, "timeout": 1500},
-       "fuzz": [{"target": "FuzzC11", "time": "90s", "timeout": 400}]}],
+       "fuzz": [{"target": "FuzzC11", "time": "90s", "timeout": 400}]},
+      {"pkg": "c11", "test": "TestC11Coloc",
+       "quick": {"checks": 400, "shards": 4, "timeout": 300},
+       "thorough": {"checks": 16000, "shards": 16, "timeout": 1500}}],
      BASE_ASSUME + ["ref/hashslot written from the cluster specification; unit-checked against CRC16('123456789')=0x31C3 and CLUSTER KEYSLOT examples"])
 
 prop("C12", "Stream decoding is lossless and its offsets equal the bytes consumed", "exploration",
